@@ -38,6 +38,11 @@ class Rec:
     def hexdigest(self): return self.inner.hexdigest()
 
 
+def pre_build(ctx):
+    from harness import extract_tables as E
+    E.gen_c16()
+
+
 def run_impl(path: Path, names, wants):
     """Run the real hash_checksums under a short-read pattern. Returns (result, per-hash slice lengths, B)."""
     sp.sedpack()
